@@ -26,12 +26,12 @@ Theorem C13_reduce_chunked_local r ng chs (vchunks : list (list fl)) :
   api_value_reducer r -> local_wf ng chs vchunks ->
   reduce_on fops r ng (ChunkedLocal chs) vchunks
   = chunk_cells fops r ng (combine (abs (ChunkedLocal chs)) (concat vchunks)).
-Proof. exact (reduce_on_local fops fops_laws fops_sum_closed r ng chs vchunks). Qed.
+Proof. exact (reduce_on_local fops fops_laws r ng chs vchunks). Qed.
 Theorem C13_reduce_chunked_global r ng chs (vchunks : list (list fl)) :
   api_value_reducer r -> global_wf ng chs vchunks ->
   reduce_on fops r ng (ChunkedGlobal chs) vchunks
   = chunk_cells fops r ng (combine (abs (ChunkedGlobal chs)) (concat vchunks)).
-Proof. exact (reduce_on_global fops fops_laws fops_sum_closed r ng chs vchunks). Qed.
+Proof. exact (reduce_on_global fops fops_laws r ng chs vchunks). Qed.
 Print Assumptions C13_reduce_contig.
 Print Assumptions C13_reduce_chunked_local.
 Print Assumptions C13_reduce_chunked_global.
@@ -46,7 +46,7 @@ Theorem C13_example_history r ng chs (vchunks : list (list fl)) ops :
 Proof.
   exact (fun Hr Hwf => eq_trans (f_equal (fun c => chunk_cells fops r ng (combine c (concat vchunks)))
                                          (abs_history ng ops {| rep := ChunkedLocal chs; cached_count := None |}))
-                                (eq_sym (reduce_on_local fops fops_laws fops_sum_closed r ng chs vchunks Hr Hwf))).
+                                (eq_sym (reduce_on_local fops fops_laws r ng chs vchunks Hr Hwf))).
 Qed.
 Print Assumptions C13_example_history.
 
